@@ -71,12 +71,15 @@ class Raised:
 
 
 class Obj:
-    def __init__(self, name, ci=None, attrs=None, vec_attrs=(), opaque_methods=None):
+    def __init__(self, name, ci=None, attrs=None, vec_attrs=(), opaque_methods=None, closed=False):
         self.name = name
+        self.closed = closed         # True: only attributes that were assigned exist
         self.ci = ci
         self.attrs = dict(attrs or {})
         self.vec_attrs = set(vec_attrs)
         self.opaque_methods = opaque_methods or {}
+        self.opaque_params = {}      # opaque method name -> tuple of expected parameter names
+        self.missing = set()         # attribute names the object does not have (AttributeError)
         self.writes = []
 
     def __repr__(self):
@@ -135,6 +138,7 @@ class Interp:
         self.table_atoms = None       # when a dict: numeric dict literals become atoms
         self.table_env = {}
         self._table_cache = {}
+        self.integrals = {}
         self.prefixes = None
 
     # ------------------------------------------------------------------
@@ -261,6 +265,8 @@ class Interp:
             return C(int(v))
         if isinstance(v, (int, Fr)):
             return C(v)
+        if v is None or isinstance(v, str):
+            raise _RaisedExc(Raised('TypeError'))
         raise Unsupported('not a number: %r' % (v,))
 
     def binop(self, op, a, b):
@@ -708,7 +714,20 @@ class Frame:
             left = self.ev(n.left)
             for op, rn in zip(n.ops, n.comparators):
                 right = self.ev(rn)
-                if not I.compare(_CMP[type(op)], left, right, n):
+                o = _CMP[type(op)]
+                if o in ('<', '<=', '>', '>=') and (
+                        (isinstance(left, ListV) and getattr(left, 'is_array', False)) or
+                        (isinstance(right, ListV) and getattr(right, 'is_array', False))):
+                    if len(n.ops) != 1:
+                        raise Unsupported('chained array comparison', n, self.module.relpath)
+                    ls = left.items if isinstance(left, ListV) else None
+                    rs = right.items if isinstance(right, ListV) else None
+                    m = len(ls if ls is not None else rs)
+                    out = ListV([I.compare(o, ls[i] if ls is not None else left,
+                                           rs[i] if rs is not None else right, n) for i in range(m)])
+                    out.is_array = True
+                    return out
+                if not I.compare(o, left, right, n):
                     return False
                 left = right
             return True
@@ -791,7 +810,7 @@ class Frame:
         if isinstance(base, Rat) and isinstance(idx, Rat):
             # scalar[...]: numpy 0-d / item of a symbolic array attribute
             if base.n.is_monomial() and base.is_monomial():
-                name = 'idx{%r}[%r]' % (base.key(), idx.key())
+                name = 'idx{%r}[%r]' % (base, idx)
                 return self.I.D.sym(name)
         raise Unsupported('subscript of %r' % (base,), n, self.module.relpath)
 
@@ -828,6 +847,8 @@ class Frame:
 
     def obj_attr(self, obj, attr, node=None):
         I = self.I
+        if attr in obj.missing:
+            raise _RaisedExc(Raised('AttributeError', node))
         if attr in obj.attrs:
             return obj.attrs[attr]
         if obj.ci is not None:
@@ -842,6 +863,8 @@ class Frame:
             return BoundOpaque(obj, attr)
         if attr == '__class__':
             return obj.ci
+        if obj.closed:
+            raise _RaisedExc(Raised('AttributeError', node))
         # lazily created parameter atom
         name = '%s.%s' % (obj.name, attr)
         if attr in obj.vec_attrs:
@@ -955,6 +978,8 @@ class Frame:
                                    owner=fv.owner, name=qual)
         if isinstance(fv, Builtin):
             return builtin_call(I, self, fv.name, args, kwargs, n)
+        if isinstance(fv, NativeRef):
+            return I.native[fv.name](I, self, args, kwargs, n)
         if isinstance(fv, BoundNative):
             return bound_native(I, self, fv, args, kwargs, n)
         if isinstance(fv, BoundOpaque):
@@ -963,6 +988,11 @@ class Frame:
 
 
 class Builtin:
+    def __init__(self, name):
+        self.name = name
+
+
+class NativeRef:
     def __init__(self, name):
         self.name = name
 
@@ -992,9 +1022,17 @@ class TableRef:
         self.node = node
 
     def lookup(self, frame, idx, n):
-        for k, v in zip(self.node.keys, self.node.values):
-            if isinstance(k, ast.Constant) and k.value == idx:
-                return Frame(frame.I, self.module, {}, None, None).ev(v)
+        nodes = [self.node]
+        for nm, vals in self.module.assigns.items():
+            if vals and vals[-1] is self.node:
+                nodes = list(reversed(self.module.updates.get(nm, []))) + nodes
+        for node in nodes:
+            hit = None
+            for k, v in zip(node.keys, node.values):
+                if isinstance(k, ast.Constant) and k.value == idx:
+                    hit = v          # later duplicate keys win
+            if hit is not None:
+                return Frame(frame.I, self.module, {}, None, None).ev(hit)
         if isinstance(idx, str):
             raise _RaisedExc(Raised('KeyError', n))
         raise Unsupported('symbolic key into table', n, frame.module.relpath)
@@ -1053,7 +1091,7 @@ _OPS = {ast.Add: '+', ast.Sub: '-', ast.Mult: '*', ast.Div: '/', ast.Pow: '**'}
 _CMP = {ast.Eq: '==', ast.NotEq: '!=', ast.Lt: '<', ast.LtE: '<=', ast.Gt: '>', ast.GtE: '>=',
         ast.Is: 'is', ast.IsNot: 'is not', ast.In: 'in', ast.NotIn: 'not in'}
 
-PY_BUILTINS = {'float', 'int', 'len', 'min', 'max', 'enumerate', 'zip', 'range', 'type',
+PY_BUILTINS = {'getattr', 'hasattr', 'float', 'int', 'len', 'min', 'max', 'enumerate', 'zip', 'range', 'type',
                'isinstance', 'all', 'any', 'list', 'tuple', 'abs', 'sum', 'str', 'print',
                'sorted', 'dict', 'bool'}
 
@@ -1074,6 +1112,34 @@ def builtin_call(I, fr, name, args, kwargs, n):
         if isinstance(v, (Rat, Elem, SumV)):
             return v
         raise Unsupported('%s() of %r' % (name, v), n)
+    if name in ('getattr', 'hasattr'):
+        o, a = args[0], args[1]
+        if not isinstance(a, str):
+            raise Unsupported('getattr with symbolic attribute name', n)
+        if isinstance(o, Obj):
+            if a in o.missing:
+                if name == 'hasattr':
+                    return False
+                if len(args) > 2:
+                    return args[2]
+                raise _RaisedExc(Raised('AttributeError', n))
+            if name == 'hasattr':
+                if a in o.attrs or a in o.opaque_methods or (
+                        o.ci is not None and I.repo.find_method(o.ci, a, missing_ok=True)):
+                    return True
+                if o.closed:
+                    return False
+                raise Unsupported('hasattr on an open symbolic object', n)
+            if len(args) > 2 and o.closed and a not in o.attrs and a not in o.opaque_methods and not (
+                    o.ci is not None and I.repo.find_method(o.ci, a, missing_ok=True)):
+                return args[2]
+            return fr.obj_attr(o, a, n)
+        if isinstance(o, ExtRef) and o.alias[0] == 'module':
+            full = o.alias[1] + '.' + a
+            if full in I.native:
+                return NativeRef(full)
+            raise Unsupported('getattr on external module: %s' % full, n)
+        raise Unsupported('getattr on %r' % (o,), n)
     if name == 'len':
         v = args[0]
         if isinstance(v, ListV):
@@ -1204,6 +1270,11 @@ def bound_native(I, fr, bn, args, kwargs, n):
             b.d.update(kwargs)
             return None
     if isinstance(b, str) and name == 'format':
+        if all(isinstance(a, str) for a in args) and not kwargs:
+            try:
+                return b.format(*args)
+            except (IndexError, KeyError, ValueError):
+                pass
         return '<formatted>'
     if isinstance(b, str) and name in ('lower', 'upper', 'strip'):
         return getattr(b, name)()
@@ -1328,7 +1399,7 @@ def _np_prod(I, fr, args, kwargs, n):
         return tot
     if isinstance(v, Elem):
         r = I.num(v.r)
-        name = 'PROD{%r}' % (r.key(),)
+        name = 'PROD{%r}' % (r,)
         I.D.kind.setdefault(name, 'prod')
         I.D.arg.setdefault(name, r)
         I.D.positive.add(name)
@@ -1349,6 +1420,17 @@ def _np_minmax(which):
             return best
         raise Unsupported('np.%s operand' % which, n)
     return h
+
+
+def _np_argmax(I, fr, args, kwargs, n):
+    """np.argmax of a boolean array: index of the first True, 0 when none"""
+    v = _arg(args, kwargs, 0, 'a')
+    if isinstance(v, ListV) and all(isinstance(x, bool) for x in v.items):
+        for i, x in enumerate(v.items):
+            if x:
+                return C(i)
+        return C(0)
+    raise Unsupported('np.argmax operand', n)
 
 
 def _identity(I, fr, args, kwargs, n):
@@ -1462,6 +1544,90 @@ def _c_T0(I, fr, args, kwargs, n):
     return C(Fr('298.15'))
 
 
+def expected_params(I, fn):
+    """(names, accepts **kwargs) of a callable abstract value"""
+    if isinstance(fn, FuncRef):
+        names, _, _, kwarg = params(fn.fn)
+        if fn.self_obj is None and fn.owner is not None and not any(
+                ast.unparse(d) in ('staticmethod', 'classmethod') for d in fn.fn.decorator_list):
+            pass
+        return names, kwarg is not None
+    if isinstance(fn, BoundOpaque):
+        return list(fn.obj.opaque_params.get(fn.name, ())), False
+    if isinstance(fn, ClassInfo):
+        got = I.repo.find_method(fn, '__init__', missing_ok=True)
+        if got:
+            names, _, _, kwarg = params(got[1])
+            return names, kwarg is not None
+        return [], False
+    raise Unsupported('expected arguments of %r' % (fn,))
+
+
+def _pass_expected(I, fr, args, kwargs, n):
+    fn = args[0] if args else kwargs.pop('fn')
+    names, _ = expected_params(I, fn)
+    sel = {k: v for k, v in kwargs.items() if k in names and k != 'self'}
+    return fr.apply(fn, [], sel, n)
+
+
+def _force_pass(I, fr, args, kwargs, n):
+    fn = args[0] if args else kwargs.pop('fn')
+    names, has_kw = expected_params(I, fn)
+    if has_kw:
+        return fr.apply(fn, [], dict(kwargs), n)
+    sel = {k: v for k, v in kwargs.items() if k in names and k != 'self'}
+    return fr.apply(fn, [], sel, n)
+
+
+def _copy(I, fr, args, kwargs, n):
+    v = args[0]
+    if isinstance(v, DictV):
+        return DictV(dict(v.d))
+    if isinstance(v, ListV):
+        r = ListV(list(v.items))
+        r.is_array = getattr(v, 'is_array', False)
+        return r
+    return v
+
+
+def _np_atleast_1d(I, fr, args, kwargs, n):
+    v = args[0]
+    if isinstance(v, (ListV, Elem)):
+        return v
+    r = ListV([v])
+    r.is_array = True
+    return r
+
+
+def _np_full_like(I, fr, args, kwargs, n):
+    a = _arg(args, kwargs, 0, 'a')
+    fill = _arg(args, kwargs, 1, 'fill_value')
+    if isinstance(a, ListV):
+        r = ListV([fill for _ in a.items])
+        r.is_array = True
+        return r
+    if isinstance(a, Elem):
+        return Elem(fill)
+    raise Unsupported('np.full_like operand', n)
+
+
+def _quad(I, fr, args, kwargs, n):
+    fn = _arg(args, kwargs, 0, 'func')
+    lo = _arg(args, kwargs, 1, 'a')
+    hi = _arg(args, kwargs, 2, 'b')
+    if not (isinstance(lo, Rat) and lo.is_const()):
+        raise Unsupported('integral with symbolic lower limit', n)
+    if not isinstance(fn, FuncRef):
+        raise Unsupported('integrand is not a resolvable function', n)
+    at_hi = fr.apply(fn, [hi], {}, n)
+    name = 'INT<%s from %s>{%r}' % (fn.fn.name, lo.const_value(), hi)
+    I.D.kind.setdefault(name, 'int')
+    I.D.arg.setdefault(name, hi)
+    I.D.integrand[name] = at_hi
+    I.integrals[name] = (fn, lo, hi)
+    return ListV([Rat.atom(name), C(0)])
+
+
 def _is_iterable(I, fr, args, kwargs, n):
     v = _arg(args, kwargs, 0, 'val')
     if isinstance(v, (ListV, Elem, DictV)):
@@ -1489,6 +1655,7 @@ NATIVE = {
     'numpy.sum': _np_sum,
     'numpy.prod': _np_prod,
     'numpy.append': _np_append,
+    'numpy.argmax': _np_argmax,
     'numpy.min': _np_minmax('min'),
     'numpy.max': _np_minmax('max'),
     'numpy.concatenate': _np_concatenate,
@@ -1501,6 +1668,13 @@ NATIVE = {
     'pmutt.constants.P0': _c_P0,
     'pmutt.constants.T0': _c_T0,
     'pmutt._is_iterable': _is_iterable,
+    'pmutt._pass_expected_arguments': _pass_expected,
+    'pmutt._force_pass_arguments': _force_pass,
+    'copy.copy': _copy,
+    'copy.deepcopy': _copy,
+    'numpy.atleast_1d': _np_atleast_1d,
+    'numpy.full_like': _np_full_like,
+    'scipy.integrate.quad': _quad,
 }
 
 GLOBAL_ATTRS = {
@@ -1515,13 +1689,16 @@ class RankOrder:
     """ordering oracle: atoms (and rational constants) are compared through an
     assumed assignment of ranks; anything else stays undecided."""
 
-    def __init__(self, ranks):
+    def __init__(self, ranks, const_ranks=False):
         self.ranks = dict(ranks)
+        self.const_ranks = const_ranks
 
     def rank(self, r):
-        if r.is_const():
+        if r.is_const() or r.iszero():
+            if self.const_ranks:
+                return r.const_value() if not r.iszero() else Fr(0)
             return None
-        if r.d.key() == nf.ONE.key() and r.n.is_monomial():
+        if r.is_monomial():
             (k, v), = r.n.t.items()
             if v == 1 and len(k) == 1 and k[0][1] == 1:
                 return self.ranks.get(k[0][0])
